@@ -142,6 +142,11 @@ fn run_op(op: &str, sec: &[u8]) {
         "ed_mul_base_clamped" => traced!(&mut slot, EdwardsPoint::mul_base_clamped(black_box(b32))),
         "ed_multiscalar_1" => traced!(&mut slot, EdwardsPoint::multiscalar_mul([s1].iter(), [pub_point].iter())),
         "ed_multiscalar_2" => traced!(&mut slot, EdwardsPoint::multiscalar_mul([s1, s2].iter(), [pub_point, pub_point2].iter())),
+        "ris_multiscalar_2" => {
+            let rp1 = curve25519_dalek::constants::RISTRETTO_BASEPOINT_POINT * pub_scalar;
+            let rp2 = rp1 + curve25519_dalek::constants::RISTRETTO_BASEPOINT_POINT;
+            traced!(&mut slot, RistrettoPoint::multiscalar_mul([s1, s2].iter(), [rp1, rp2].iter()))
+        }
         "ed_multiscalar_3" => traced!(&mut slot, EdwardsPoint::multiscalar_mul([s1, s2, s1nz].iter(), [pub_point, pub_point2, sp1].iter())),
         // sizes at the thresholds where the *variable-time* front end switches algorithm (190, 500, 800 terms): the
         // constant-time front end must not switch at all
